@@ -90,6 +90,15 @@ def fixed_calls():
         c.append(("parse-pretty%d" % i, _mk("prettify", txt)))
         c.append(("parse-ast%d" % i, _mk("create_ast", txt)))
     c.append(("ast", _mk("create_ast", "A := DS_1[calc Me_3 := Me_1 + Me_2][filter Me_3 > 1]; B <- A + DS_2;")))
+    # eval(): the semantic pass validates the routine's SQL against the operand tables of *this* call
+    ev_a = _mk("semantic_analysis", 'DS_r <- eval(SQL_A(DS_1) language "SQL" returns dataset {identifier<integer> Id_1, measure<number> Me_2});', TP_STRUCT,
+               external_routines={"name": "SQL_A", "query": "SELECT Id_1, Me_2 FROM DS_1;"})
+    ev_b = _mk("semantic_analysis", 'DS_r <- eval(SQL_B(DS_1) language "SQL" returns dataset {identifier<integer> Id_1, measure<string> VAt_1});', V_STRUCT,
+               external_routines={"name": "SQL_B", "query": "SELECT Id_1, VAt_1 FROM DS_1;"})
+    c.append(("opcls-eval-a-sem", ev_a))
+    c.append(("opcls-eval-b-sem", ev_b))
+    c.append(("opcls-eval-a-run", dict(ev_a, api="run", data=TP_DATA)))
+    c.append(("opcls-eval-b-run", dict(ev_b, api="run", data=V_DATA)))
     c.append(("validate", _mk("validate_dataset", "", TP_STRUCT, TP_DATA)))
     c.append(("validate-v", _mk("validate_dataset", "", V_STRUCT, V_DATA)))
     c.append(("gensdmx", dict(_mk("generate_sdmx", "define operator f (x dataset) returns dataset is x * 2 end operator; R <- f(DS_1); S <- R[filter Me_1 > 1];"),
@@ -131,7 +140,7 @@ def make_scenario(rng, corpus_ids=None, gen_pool=None):
             elif mode < 0.7:
                 # calls that contend for the same operator class's scratch attributes
                 if opfam is None:
-                    opfam = rng.choice(["round", "trunc", "join", "ljoin", "an-", "fts", "agg"])
+                    opfam = rng.choice(["round", "trunc", "join", "ljoin", "an-", "fts", "agg", "eval", "eval"])
                 fam = opfam
                 pool = [x for x in fc if x[0].startswith("opcls-" + fam)]
                 name, op = rng.choice(pool)
